@@ -163,6 +163,28 @@ def run(ctx):
                     ctx.counterexample('on_validate_file raising at its call %d (file %r): yielded %r, expected %r; skipped %d' % (k, tgt, gotk, expk, wk.get_skipped()),
                                        {'call': k, 'file': tgt, 'got': [list(x) for x in gotk], 'expected': [list(x) for x in expk]})
                     break
+            # kill() issued from inside on_validate_file at its k-th call (the hook still answers True): the file in progress is
+            # finished by the verdict it got - handed to on_match, its value yielded - and nothing after it is touched
+            class RecKill(RecK):
+                def on_validate_file(self, base, name):
+                    self.calls += 1
+                    self.log.append(('validate', name))
+                    if self.calls == self.k:
+                        self.raised = name
+                        self.kill()
+                    return True
+            for k in range(1, wk0.calls + 1):
+                evals += 1
+                wq = RecKill(TR.root, '*.txt', flags=WM.RECURSIVE, k=k)
+                gotq = wq.match()
+                tgt = wq.raised
+                cut = next(i for i, v in enumerate(fullk) if v[1] == tgt)
+                expq = fullk[:cut + 1]
+                if gotq != expq or [e for e in wq.log if e[0] in ('match', 'skip')] != [('match' if v[0] == 'M' else 'skip', v[1]) for v in expq]:
+                    ctx.counterexample('kill() from on_validate_file at its call %d (file %r, a match): yielded %r, hooks %r; the uninterrupted run up to and including that file is %r' % (
+                        k, tgt, gotq, [e for e in wq.log if e[0] in ('match', 'skip')][-3:], expq),
+                        {'call': k, 'file': tgt, 'got': [list(x) for x in gotq], 'expected': [list(x) for x in expq]})
+                    break
         # a run starts when its iterator is first advanced, not when imatch() is called: iterators obtained early
         w = Rec(T.root, '*.txt', flags=WM.RECURSIVE)
         one_run = None
